@@ -102,6 +102,8 @@ FnResult(fn, arg, n) ==
     [] r.r = "tagged" -> Ok(VVec(<<arg, I(n)>>))
     [] r.r = "double" -> IF arg.t = "Int" /\ IntInRange(ZMul(arg.n, ZFromInt(2))) THEN Ok(VInt(ZMul(arg.n, ZFromInt(2))))
                          ELSE FnErr(fn.name, S("not a small int"))
+    [] r.r = "negate" -> IF arg.t = "Int" /\ IntInRange(ZNeg(arg.n)) THEN Ok(VInt(ZNeg(arg.n)))
+                         ELSE FnErr(fn.name, S("not a small int"))
 
 \* a call with an evaluated argument: [o, st]
 DoCall(env, st, name, arg) ==
